@@ -208,6 +208,32 @@ def proof_obligations(check: Check):
     return info, None
 
 
+def run_coqchk(check: Check):
+    """thorough tier: independent re-check of the compiled property files and everything they depend on with
+    coqchk, and its own report of the axioms / unsafe features they rely on."""
+    import glob
+
+    mods = ["JSL." + os.path.splitext(os.path.basename(v))[0]
+            for v in [os.path.join(COQ, "properties", f"{check.pid}.v")] +
+            sorted(glob.glob(os.path.join(COQ, "properties", f"{check.pid}[a-z].v")))]
+    args = ["coqchk", "-o", "-silent", "-Q", "model", "JSL", "-Q", "spec", "JSL", "-Q", "proofs", "JSL",
+            "-Q", "properties", "JSL", "-Q", "extraction", "JSL"] + mods
+    try:
+        p = subprocess.run(args, cwd=COQ, capture_output=True, text=True, timeout=3000)
+    except subprocess.TimeoutExpired:
+        return {"cmd": " ".join(args), "status": "timeout"}, None
+    out = (p.stdout + p.stderr).strip()
+    summary = out[out.find("CONTEXT SUMMARY"):] if "CONTEXT SUMMARY" in out else out[-1500:]
+    res = {"cmd": " ".join(args), "status": "ok" if p.returncode == 0 else "failed", "summary": summary}
+    if p.returncode != 0:
+        return res, "coqchk rejected the compiled development: " + out[-1500:]
+    clean = all(x in summary for x in ("Axioms: <none>", "type-in-type: <none>", "unsafe (co)fixpoints: <none>",
+                                       "positivity is assumed: <none>"))
+    if not clean:
+        return res, "coqchk reports axioms or unchecked features: " + summary
+    return res, None
+
+
 def _impl_worker(args):
     check, case = args
     try:
@@ -408,6 +434,11 @@ def run_check(check: Check, replay=None):
                 tie_fail.append((None, Failure("tie", "kernel-equivalence:" + kr["kernel"],
                                                "the Gallina translation of the CURRENT source of this kernel is no "
                                                "longer provably equal to the model's term: " + kr["detail"])))
+        coqchk_res = None
+        if check.tier == "thorough" and os.environ.get("VERIF_SKIP_COQCHK") != "1":
+            coqchk_res, cerr = run_coqchk(check)
+            if cerr:
+                tie_fail.append((None, Failure("tie", "proof-obligation", cerr)))
         xc_n, xc_err = extraction_cross_check(check, random.Random(check.seed + 5))
         if xc_err:
             tie_fail.append((None, Failure("tie", "extraction-cross-check",
@@ -483,6 +514,7 @@ def run_check(check: Check, replay=None):
             "corpus_cases": len(corpus),
             "violation_search_cases": searched,
             "extraction_cross_checked_in_coq": xc_n,
+            "coqchk": coqchk_res,
             "kernels_regenerated_from_source_and_proved_equal": [k["kernel"] for k in kernels if k["status"] == "tied"],
             "translator_fallback": [k["kernel"] + ": " + k["detail"] for k in kernels if k["status"] == "fallback"],
             "input_distribution": check.dist,
